@@ -237,7 +237,7 @@ static void asl_verif_stmt(void) {
     PIfSave      pIf;
     int          nPh = 0, nSv = 0, nSt = 0, nSe = 0;
 
-    for (pPh = pPhaseStacks[ActPC]; pPh; pPh = pPh->pNext) {
+    for (pPh = (ActPC < SegCount) ? pPhaseStacks[ActPC] : NULL; pPh; pPh = pPh->pNext) {
         nPh++;
     }
     for (pSv = FirstSaveState; pSv; pSv = pSv->Next) {
